@@ -282,6 +282,19 @@ def c09(scn, run):
 
 
 def c11(scn, run):
+    kept = {}
+    for e in run["trace"]:
+        # finished and complete but still pooled at two consecutive iteration ends (whatever commands were issued)
+        if e["e"] == "tick_end":
+            cur = {}
+            for t in e["snap"]["tasks"]:
+                outs = {_norm_out(o) for o in t["outputs"]}
+                if t["status"] in FINAL and _comp_ok(scn, t["id"][1], outs):
+                    cur[(tuple(t["id"]), t["obj"])] = kept.get((tuple(t["id"]), t["obj"]), 0) + 1
+                    if cur[(tuple(t["id"]), t["obj"])] >= 2:
+                        return (f"{t['id']} is finished and complete (outputs {sorted(outs)}) but still in the pool "
+                                f"after two main-loop iterations")
+            kept = cur
     for e in _tracked(run["trace"]):
         if e["e"] == "remove" and e["reason"] == "completed":
             t = e["t"]
